@@ -2,13 +2,15 @@ package core
 
 import (
 	"context"
-	"sort"
 	"errors"
 	"fmt"
+	"hash/fnv"
 	"io"
 	"net"
 	"os"
 	"runtime"
+	"sort"
+	"strings"
 	"sync"
 	"time"
 )
@@ -85,24 +87,29 @@ type half struct {
 type Conn struct {
 	ID   int    // arrival order (not canonical; do not log)
 	Name string // canonical: h<host index>.<per-host dial ordinal>
-	Ord  int    // per-host dial ordinal
+	Ord  int    // ordinal among the dials of the same logical goroutine to this host
+	key  string // canonical sort key within the host
 	Host *Host
 	net  *Net
 	mu   sync.Mutex
 	dir  [2]half
 
-	localClosed bool
-	peerClosed  bool // server closed or reset: writes fail after writeGrace more calls
-	writeGrace  int
-	blackhole   bool
-	srvReading  bool // false: the server does not consume c2s bytes
-	bufLimit    int  // 0 = unbounded; else max bytes in c2s inflight
-	wrWaiter    chan struct{}
-	rdDeadline  time.Time
-	wrDeadline  time.Time
-	faults      []*StreamFault
+	localClosed   bool
+	peerClosed    bool // server closed or reset: writes fail after writeGrace more calls
+	writeGrace    int
+	blackhole     bool
+	srvReading    bool // false: the server does not consume c2s bytes
+	bufLimit      int  // 0 = unbounded; else max bytes in c2s inflight
+	acceptStalled bool
+	wrWaiter      chan struct{}
+	rdDeadline    time.Time
+	wrDeadline    time.Time
+	faults        []*StreamFault
 	// Writes counts client Write calls; WriteStart[i] is the stream offset where write i began.
 	WriteStart []int64
+	// WriteBlocked lists the simulated intervals during which a client Write was blocked on a full
+	// socket buffer (end < 0: still blocked).
+	WriteBlocked [][2]time.Duration
 	// RecordWire makes the connection keep the bytes actually put on the wire per direction (after faults).
 	RecordWire bool
 	Wire       [2][]byte
@@ -132,6 +139,7 @@ type Host struct {
 	Latency     [2]LatencyModel
 	Dials       int
 	accepted    int
+	byTag       map[string]int
 }
 
 // LatencyModel: base + uniform jitter, in microseconds.
@@ -174,7 +182,7 @@ func (n *Net) ordered() []*Conn {
 		if conns[i].Host.Index != conns[j].Host.Index {
 			return conns[i].Host.Index < conns[j].Host.Index
 		}
-		return conns[i].Ord < conns[j].Ord
+		return conns[i].key < conns[j].key
 	})
 	return conns
 }
@@ -244,10 +252,18 @@ func (n *Net) Dial(ctx context.Context, network, host string) (net.Conn, error) 
 		w.logf("dial %s refused", host)
 		return nil, errRefused
 	}
-	c := &Conn{ID: len(n.Conns), Host: h, net: n, srvReading: !h.AcceptStall, bufLimit: h.BufLimit, DialedAt: w.Now()}
-	c.Ord = h.accepted
+	c := &Conn{ID: len(n.Conns), Host: h, net: n, srvReading: !h.AcceptStall, acceptStalled: h.AcceptStall, bufLimit: h.BufLimit, DialedAt: w.Now()}
+	// canonical identity: host, logical identity of the dialing goroutine, ordinal among its dials
+	// (two connections re-dialed at the same simulated instant must not swap names between runs)
+	gtag := w.Sched.TagOf(Gid())
+	if h.byTag == nil {
+		h.byTag = map[string]int{}
+	}
+	c.Ord = h.byTag[gtag]
+	h.byTag[gtag]++
 	h.accepted++
-	c.Name = fmt.Sprintf("h%d.%d", h.Index, c.Ord)
+	c.key = fmt.Sprintf("%s|%06d", gtag, c.Ord)
+	c.Name = fmt.Sprintf("h%d.%s.%d", h.Index, shortTag(gtag), c.Ord)
 	n.Conns = append(n.Conns, c)
 	stall := h.AcceptStall
 	n.mu.Unlock()
@@ -338,10 +354,12 @@ func (c *Conn) Write(b []byte) (int, error) {
 	for {
 		c.mu.Lock()
 		if c.localClosed {
+			c.closeBlockedLocked(w.Now())
 			c.mu.Unlock()
 			return 0, net.ErrClosed
 		}
 		if c.peerClosed {
+			c.closeBlockedLocked(w.Now())
 			if c.writeGrace <= 0 {
 				c.mu.Unlock()
 				return 0, errPipe
@@ -355,6 +373,9 @@ func (c *Conn) Write(b []byte) (int, error) {
 			dl := c.wrDeadline
 			ch := make(chan struct{})
 			c.wrWaiter = ch
+			if n := len(c.WriteBlocked); n == 0 || c.WriteBlocked[n-1][1] >= 0 {
+				c.WriteBlocked = append(c.WriteBlocked, [2]time.Duration{w.Now(), -1})
+			}
 			c.mu.Unlock()
 			c.net.fired("write-blocked")
 			if dl.IsZero() {
@@ -378,6 +399,7 @@ func (c *Conn) Write(b []byte) (int, error) {
 			continue
 		}
 		h := &c.dir[C2S]
+		c.closeBlockedLocked(w.Now())
 		c.WriteStart = append(c.WriteStart, h.enq)
 		c.enqueueLocked(C2S, b)
 		c.mu.Unlock()
@@ -605,6 +627,42 @@ func (c *Conn) Blackhole(keepAlive time.Duration) {
 	c.net.w.At(keepAlive, "keepalive-expiry conn="+c.Name, func() { c.Reset() })
 }
 
+func (c *Conn) closeBlockedLocked(now time.Duration) {
+	if n := len(c.WriteBlocked); n > 0 && c.WriteBlocked[n-1][1] < 0 {
+		c.WriteBlocked[n-1][1] = now
+	}
+}
+
+// WriteBlockedDuring tells whether a client Write was blocked at some instant of [from, to].
+func (c *Conn) WriteBlockedDuring(from, to time.Duration) bool {
+	c.mu.Lock()
+	defer c.mu.Unlock()
+	for _, iv := range c.WriteBlocked {
+		end := iv[1]
+		if end < 0 {
+			end = 1<<62 - 1
+		}
+		if iv[0] <= to && end >= from {
+			return true
+		}
+	}
+	return false
+}
+
+// Stalled reports whether the server never read from this connection (accept-then-stall).
+func (c *Conn) Stalled() bool {
+	c.mu.Lock()
+	defer c.mu.Unlock()
+	return c.acceptStalled
+}
+
+// SetBufLimit sets the socket-buffer model of the client->server direction (0 = unbounded).
+func (c *Conn) SetBufLimit(n int) {
+	c.mu.Lock()
+	c.bufLimit = n
+	c.mu.Unlock()
+}
+
 // SetServerReading switches the server's consumption of client bytes on or off (write-stall model).
 func (c *Conn) SetServerReading(on bool) {
 	c.mu.Lock()
@@ -732,4 +790,21 @@ func (n *Net) shutdownAll() {
 		c.wakeWriter()
 		c.mu.Unlock()
 	}
+}
+
+func shortTag(tag string) string {
+	h := fnv.New32a()
+	h.Write([]byte(tag))
+	v := h.Sum32()
+	// keep a readable hint of the tag
+	hint := tag
+	if i := strings.LastIndex(hint, "<"); i >= 0 {
+		hint = hint[i+1:]
+	}
+	hint = strings.TrimRight(hint, ">#0123456789")
+	hint = strings.TrimPrefix(hint, "~")
+	if len(hint) > 8 {
+		hint = hint[:8]
+	}
+	return fmt.Sprintf("%s%04x", hint, v&0xffff)
 }
